@@ -9,7 +9,7 @@ from sa.astx import call_name, dotted, src, walk_local
 from sa.effects import accesses, class_accesses
 from sa.selftest import Mutant, Silent
 from sa.source import methods
-from sa.props._lib_b import (MiniBudget, MiniEval, MiniRaise, Unsupported, check_delayed_call, public_api_effects, lin_cmp, lin_cmp_text, lin_eq, linform,
+from sa.props._lib_b import (MiniBudget, MiniEval, MiniRaise, Unsupported, check_delayed_call, intra_class_calls, public_api_effects, lin_cmp, lin_cmp_text, lin_eq, linform,
                               model_class, swallowing_predicate)
 
 PROPERTY = "C08"
@@ -159,6 +159,25 @@ def _push_sites(ctx, cls, g, al, var):
                 if h is not None:
                     via[n] = h
     return direct, via
+
+
+def _inserters(cls):
+    """Names of the methods whose call moves staged calls into the heap: _insertNewDelayedCalls and the private helpers
+    that (transitively) call it."""
+    graph = intra_class_calls(cls)
+    names = {"_insertNewDelayedCalls"} & set(graph)
+    changed = True
+    while changed:
+        changed = False
+        for m, tg in graph.items():
+            if m not in names and m.startswith("_") and not m.startswith("__") and tg & names:
+                names.add(m)
+                changed = True
+    return names
+
+
+def _is_insert_call(x, names):
+    return isinstance(x, ast.Call) and (call_name(x) or "").startswith("self.") and call_name(x)[5:] in names
 
 
 def _heap_ok(h):
@@ -395,7 +414,8 @@ def _check_run(ctx, mod, cls, Elem):
     ctx.need(isinstance(pst, ast.Assign) and isinstance(pst.targets[0], ast.Name), "`call = heappop(...)`")
     var = pst.targets[0].id
     # ---- new calls are inserted before, never during, the run loop
-    ins = g.find(lambda x: isinstance(x, ast.Call) and call_name(x) == "self._insertNewDelayedCalls")
+    inames = _inserters(cls)
+    ins = g.find(lambda x: _is_insert_call(x, inames))
     ctx.check(bool(ins) and all(g.dominates(i, pop) for i in ins[:1]) and g.must_precede(ins, [pop]) is None, "run/inserts-new-calls-first", q,
               "pending calls are run without first inserting the newly scheduled ones (a due call is skipped this iteration)")
     for i in ins:
@@ -539,7 +559,8 @@ def _check_timeout(ctx, mod, cls, Elem):
     f = ctx.func(BASE, "ReactorBase.timeout")
     q = R + ".timeout"
     g = ctx.cfg(f)
-    ins = g.find(lambda x: isinstance(x, ast.Call) and call_name(x) == "self._insertNewDelayedCalls")
+    inames = _inserters(cls)
+    ins = g.find(lambda x: _is_insert_call(x, inames))
     reads = g.find(lambda x: _self_attr(x, HEAP))
     wit = g.must_precede(ins, reads)
     ctx.check(bool(ins) and bool(reads) and wit is None, "timeout/inserts-new-calls-first", q,
